@@ -544,7 +544,9 @@ class Inliner:
         if has_ret:
             body = _eliminate_returns(body, target_stmt_builder)
             return _tidy_inlined(pre + body, locals_ | {t.targets[0].id for t in pre})
-        return pre + body + [target_stmt_builder(ast.Constant(value=None))]
+        tail = target_stmt_builder(ast.Constant(value=None))
+        # a helper without a return value called as a statement leaves nothing behind
+        return pre + body + ([] if isinstance(tail, ast.Expr) else [tail])
 
     def run(self):
         for _round in range(3):
